@@ -3,12 +3,74 @@
 import json, os, subprocess
 V = os.path.dirname(os.path.dirname(os.path.abspath(__file__)))
 
+def C(technique, text, note, design):
+    return dict(technique=technique, text=text, note=note, design=design)
+
+ORACLE_NOTE = "Trusts the ~350-line explicit-state oracle (harness/src/sem.rs; anchored on fission-yeast cardinalities from an external tool, EG cross-checked graph-theoretically), lib-param-bn's reading of .aeon, and the harness's colour-validity rule (cross-checked against the graph's unit set on every case; mismatch => inconclusive)."
+SYN_NOTE = "Trusts the reference front-end harness/src/syn.rs (maximal-munch lexer, precedence-climbing parser, binder, de-Bruijn keys) written from README.md and the property text."
+META_NOTE = "Differential: both sides are computed by the library under test on the same graph object (BDD equality = set equality); blind to a defect that changes both sides identically."
+
 CHECKS = {
- "C01": dict(
-    technique="runtime monitoring: reference-model (explicit-state HCTL oracle) monitor on the returned set of every entry point",
-    text="Exploration: thousands (quick) to millions (thorough) of random (network, formula) executions of the real entry points, each result compared point-wise (every state x every enumerated colour) with an explicit-state evaluator written from the HCTL definitions. Held on the executions observed; says nothing beyond 5 variables / 3 nested state variables.",
-    note="Trusts the ~300-line explicit oracle (anchored on fission-yeast cardinalities from an external tool, EG cross-checked graph-theoretically), lib-param-bn's parsing of .aeon, and the harness's colour-validity rule (cross-checked against the graph's unit set on every case).",
-    design="§2 C01"),
+ "C01": C("runtime monitoring: reference-model monitor (explicit-state HCTL oracle) on the set returned by every entry point",
+    "Exploration: thousands (quick) to hundreds of thousands (thorough) of random (network, closed plain formula) executions of all ten entry points; every result compared point-wise (every state x every enumerated valid colour) with an explicit-state evaluator written from the HCTL definitions. Held on the executions observed; says nothing beyond 5 variables / 3 nested state variables / 2^10 colours.",
+    ORACLE_NOTE, "§2 C01"),
+ "C02": C("runtime monitoring: explicit-state oracle on extended formulae with explicit context sets + metamorphic README equivalences; hook events account for restricted graphs / empty-domain shortcuts",
+    "Exploration over random networks x extended formulae x context sets (empty, full, single pair, colour-dependent, empty for some colours; nested and repeated domains): point-wise comparison with the oracle and the three README equivalences for random bodies. A run that did not observe restricted graphs, empty-domain shortcuts, nested domains and colour-partial sets is inconclusive.",
+    ORACLE_NOTE + " Context sets are built inside the unit set and never mention spare variables.", "§2 C02"),
+ "C03": C("runtime monitoring: invariant monitor on every returned set (subset of the unit set, counts, BDD support) on networks with constrained parameters",
+    "Exploration: every result of every entry point on constrained random networks is checked to be a subset of the unit set of the graph it belongs to, to have no more colours/elements than the graph, and (closed formulae) to be independent of spare variables. No oracle involved, so nothing but lib-param-bn's set algebra is trusted.",
+    "Trusts lib-param-bn's set operations and unit set; only networks whose constraints exclude at least one parametrisation count.", "§2 C03"),
+ "C04": C("runtime monitoring: differential monitor over evaluation histories (batch vs single vs no-sharing vs permuted/repeated vs re-run vs observed) with cache-event log for coverage",
+    "Exploration over random batches with sub-formulae shared literally, up to renaming, inside/outside/across restricted scopes and across formulae; results compared position by position as BDDs. The hook log (hits, renamed hits, closed hits, hits inside restricted scopes, evictions, wild-card hits) must show that the sharing paths were exercised, otherwise the run is inconclusive.",
+    META_NOTE + " The no-sharing baseline is the public eval_node with an empty duplicate table.", "§2 C04"),
+ "C05": C("runtime monitoring: reference-model monitor (independent lexer + precedence-climbing parser) over an exhaustive token-sequence enumeration plus random strings",
+    "Exhaustive up to the stated token-sequence length in both parser modes (quick: 13 tokens^<=5 and 18^<=3; thorough: 13^<=7 and 18^<=5, ~70 M strings), random beyond; accept/reject and the produced tree compared with the reference, tokenizer compared token by token, plain vs extended parser compared.",
+    SYN_NOTE, "§2 C05"),
+ "C06": C("runtime monitoring: invariant monitor on every node of trees from constructors, parsers and preprocessing (round trip, stored text, stored height)",
+    "Exploration over random trees (all operators, atoms, wild-cards, domains, hostile identifiers, deep combs) from three sources; every node's stored text compared with the harness printer, heights recomputed, print->parse round trip checked with both parsers.",
+    "Trusts the harness printer F::canon (20 lines, written from the property text) and the identifier validity rule stated in the evidence assumptions.", "§2 C06"),
+ "C07": C("runtime monitoring: reference-model monitor (reference binder, de-Bruijn alpha-equivalence) on validate_props_and_rename_vars",
+    "Exploration over random trees without the closedness guarantee: Ok/Err vs the reference binder, exact equality with naming-by-depth, alpha-equivalence, name count = nesting depth, idempotence.",
+    SYN_NOTE, "§2 C07"),
+ "C08": C("runtime monitoring: metamorphic monitor (formula vs rewritten formula) on raw and sanitised results",
+    "Exploration over random formulae x composed rewrites (bijective renaming incl. permuting x/xx/xxx, blanks, redundant parentheses, long/short hybrid spellings, constant spellings); results compared as BDDs.",
+    META_NOTE, "§2 C08"),
+ "C09": C("runtime monitoring: reference-model monitor on canonical forms (all pairs of sub-formula occurrences) and an independent occurrence census behind every duplicate counter",
+    "Exploration over random lists of preprocessed formulae: for all pairs equal canonical strings <=> equal reference keys; renaming injective and consistent with the canonical text; idempotence; every duplicate entry backed by n+1 occurrences with identical true domains.",
+    SYN_NOTE + " The private canonisation functions are reached through the feature-gated re-export.", "§2 C09"),
+ "C10": C("runtime monitoring: metamorphic monitor (formula vs formula with closed sub-formulae replaced by wild-cards bound to their raw results)",
+    "Exploration over random formulae and random selections of up to 4 closed sub-formula occurrences (repeated labels included); plain vs extended entry points with empty context; raw and sanitised results compared as BDDs; wild-card cache hits must be observed.",
+    META_NOTE, "§2 C10"),
+ "C11": C("runtime monitoring: metamorphic fixed-point / duality / monotonicity laws + symbolic reference operators over lib-param-bn primitives, on small networks and bundled benchmark models",
+    "Exploration: ~35 laws per (model, S, T, S') with the sets passed as wild-cards through the public formula API; on small networks the symbolic reference is itself compared with the explicit oracle. Quick uses 4 bundled models, thorough 17 (those whose operators exceed the per-case time budget are reported as inconclusive, never as violations).",
+    "Trusts lib-param-bn's pre/post/can_post/reach_backward/trap_forward/restrict. " + META_NOTE, "§2 C11"),
+ "C12": C("runtime monitoring: explicit-state oracle + metamorphic re-spelling of every pattern occurrence; hook events confirm which spelling took the shortcut",
+    "Exploration with patterns and near-misses placed at top level, under operators, inside 1-2 quantifier scopes, inside restricted scopes, several times and in a batch; a case only counts if the original took the shortcut and the re-spelling did not.",
+    ORACLE_NOTE, "§2 C12"),
+ "C13": C("runtime monitoring: explicit-state oracle (weak until as greatest fixed point, self-checked against EU|EG and the dual) + metamorphic identities",
+    "Exploration over random formulae containing EW/AW (nested, under hybrids): point-wise oracle comparison and the four identities of the property evaluated by the library on random closed arguments.",
+    ORACLE_NOTE, "§2 C13"),
+ "C14": C("runtime monitoring: panic capture at every string-based entry point + reference front-end deciding the expected Ok/Err",
+    "Exploration over valid, ill-bound, mutated and random strings (nesting depth <= 300) x partial context maps x graphs with 0..4 spare sets; a panic anywhere is a violation; for grammar-valid inputs Ok/Err must match the documented conditions exactly.",
+    SYN_NOTE + " Context sets belong to the graph's own context. Stack exhaustion beyond depth 300 is not exercised.", "§2 C14"),
+ "C15": C("runtime monitoring: differential monitor across graphs with k = need, need+1, need+2, need+5 spare sets; point-wise raw vs sanitised comparison",
+    "Exploration: sanitised BDDs identical for all k, in the canonical encoding (variable count, set algebra with SymbolicAsyncGraph::new), equal to the raw result on every state and enumerated colour; raw results agree across k.",
+    "Sets are compared as BDDs (lib-param-bn's wrapper equality also compares differently sorted parameter lists, which is outside this repository).", "§2 C15"),
+ "C16": C("runtime monitoring: independent zip reader + reload on a graph rebuilt from the archived model; differential use of reloaded sets as context",
+    "Exploration over label->set maps, formula lists, k = 0..3 and three model file formats; archives written under /verif/target/tmp and removed.",
+    "Trusts the zip crate and lib-param-bn's .bnet/.sbml writers used to produce the input files.", "§2 C16"),
+ "C17": C("runtime monitoring: the real CLI binary as a child process; stdout / exit status / archive compared with the library's batch API; error injection",
+    "Exploration over model formats x formula-file layouts x print options x -o x -e, plus nine kinds of invalid input that must produce a message and exit status 0.",
+    "The library side is the batch API (a caching defect is C04's, not C17's). Counts compared as printed f64.", "§2 C17"),
+ "C18": C("runtime monitoring: differential monitor (unsafe_ex vs standard evaluation) + explicit oracle, on the loop-insensitive fragment and on verified steady-state-free networks",
+    "Exploration in two halves; steady-state freedom is verified by explicit enumeration per colour.",
+    ORACLE_NOTE, "§2 C18"),
+ "C19": C("runtime monitoring: the real converter binary as a child process; output parsed independently; per-variable function families compared by enumeration",
+    "Exploration over random .aeon networks including nested applications, expression arguments, shared symbols and names that look like generated constants; exit status and stderr observed.",
+    "Trusts the harness's 100-line expression parser and explicit truth-table enumeration (<= 5 variables, <= 16 constants).", "§2 C19"),
+ "C20": C("runtime monitoring: differential monitor (coloured result restricted to a colour vs result on the network instantiated by the harness and on pick_witness), plus stricter-constraint variant",
+    "Exploration over parametrised random networks x up to 12 valid colours each; states compared one by one.",
+    "The harness's instantiation (truth tables -> DNF) is independent of the library; " + META_NOTE, "§2 C20"),
 }
 NOT_APPLICABLE = {}
 
